@@ -250,6 +250,17 @@ func init() {
 			return Val{S: "Tuple"}, true
 		},
 	}
+	for _, n := range []string{"cmp.Compare", "strings.Compare"} {
+		externModels[n] = func(c *FnCtx, f *ssa.Function, a []Val, rt types.Type, pos token.Pos) (Val, bool) {
+			if len(a) != 2 || a[0].S != SStr || a[1].S != SStr {
+				return Val{}, false
+			}
+			c.usedExtern("cmp.Compare/strings.Compare on strings: result in {-1,0,1}, 0 iff equal, antisymmetric")
+			r := c.freshConst("cmp", SInt)
+			c.fact(fmt.Sprintf("(and (>= %s (- 1)) (<= %s 1) (= (= %s 0) (= %s %s)))", r, r, r, a[0].T, a[1].T))
+			return Val{T: r, S: SInt}, true
+		}
+	}
 	for _, n := range []string{"slices.Contains", "golang.org/x/exp/slices.Contains"} {
 		externModels[n] = func(c *FnCtx, f *ssa.Function, a []Val, rt types.Type, pos token.Pos) (Val, bool) {
 			c.usedExtern("slices.Contains")
